@@ -183,7 +183,7 @@ PROPS = {
                    'vba::read_variable_record', 'vba::check_record', 'vba::check_variable_record', 'cfb::Sectors::get', 'cfb::Sectors::get_chain', 'cfb::Header::from_reader', 'xlsb::cells_reader::XlsbCellsReader::next_cell', 'xlsx::get_row_and_optional_column', 'Dimensions::len', 'Range::from_sparse'],
         stubs=['encoding_rs::Encoding::decode -> model_utf16_decode', 'xlsb byte source -> KSrc (as in C03)', 'utils::push_column -> no-op and alloc::fmt::format -> empty string in the defined-name harnesses (only panic-freedom is decided there)'],
         bounds={'record bodies': 'every length 0..=N with N in 9..18 per entry point', 'FAT': '4 sectors; three concrete cycle shapes (self loop, 2-cycle, tail + 3-cycle) and a dangling id symbolic in [2, 2^32-3]', 'xlsb records': 'declared length shorter than the kind needs'},
-        outside=['zip and quick-xml internals', 'decompress_stream on arbitrary bytes (3 arbitrary bytes exceed 400 s: every byte may be a copy token)', 'open_workbook_auto trial opening', 'whole-file time/space proportionality', 'vba.rs read_dir_information / references on arbitrary bytes, xls/xlsb parse_formula on arbitrary tokens (not admitted)'],
+        outside=['zip and quick-xml internals', 'decompress_stream on arbitrary bytes (3 arbitrary bytes exceed 400 s: every byte may be a copy token)', 'open_workbook_auto trial opening', 'whole-file time/space proportionality', 'vba.rs read_dir_information / references on arbitrary bytes, xls/xlsb parse_formula on truncated token streams (harnesses c06_x_xls_formula_tok_*: after a symbolic-length first token every following byte may be any token, > 1200 s; by reading, token operands and the cce prefix are indexed without length checks, and `iftab > FTAB_LEN` admits iftab == FTAB_LEN: not decided by a query, therefore not listed as findings)'],
         assumptions=['declared counts in MergeCells/SST headers bounded by 3 / 2 so that the loop bound is finite'],
     ),
     'C16': dict(
